@@ -406,11 +406,20 @@ def check_call_sites(ctx: Ctx, aspects) -> None:
                                     others = [c for c, pol, _ in ip.conds if key(strip_ver(c)) != "(self.logger is None)"]
                                     if lg and lg[-1] and not others:
                                         ctx.violated(h, e.node, "step hooks are dispatched whether or not the runner writes logs", "the trigger is called on the path without a logger as well", "the pass over the markets leaves without calling the step trigger when self.logger is None")
+                                    # a trigger that is called for markets of one kind only
+                                    kinds_ = [(strip_ver(c), pol) for c, pol, _ in ip.conds]
+                                    if kinds_ and all(c[0] == "call" and key(c[1]) == "isinstance" and c[2] and c[2][0] == el for c, _ in kinds_):
+                                        ctx.violated(h, e.node, "step hooks are dispatched for every market", "the trigger is called for each market of the session, of whatever class", "no step trigger for markets with " + " & ".join(("" if pol else "not ") + key(c) for c, pol in kinds_))
                     elif e.kind == "call" and e.name == "_update_markets":
                         seq.append(("order-phase", True))
                     elif e.kind == "call" and e.name == "_update_times_on_markets":
                         seq.append(("clock", True))
                 names = [n for n, _ in seq if n != "order-phase"]
+                # the print switch of a session (like the presence of a logger) decides what is written, never which hooks run
+                pr = [pol for c, pol, _ in bp.conds if key(strip_ver(c)) in ("session.with_print", "(self.logger is None)")]
+                if pr and not any(n.startswith("_trigger_event_") for n in names) and any(any(n2.startswith("_trigger_event_") for n2 in [c.name for c in calls(o)]) for o in sl.paths if o is not bp):
+                    ctx.violated(h, sl.node, "step hooks are dispatched whatever the session prints or logs", "the step triggers are called on every path of a step", "on the path where " + " & ".join((("" if pol else "not ") + key(strip_ver(c))) for c, pol, _ in bp.conds if key(strip_ver(c)) in ("session.with_print", "(self.logger is None)")) + " no step trigger is called")
+                    continue
                 if "inconsistent" in names:
                     ctx.unrec(h, sl.node, "per step: before-step hook for every market, order phase, after-step hook for every market, then the clock", "a step trigger is called for some markets or steps only (under a condition): whether the skipped calls would have reached no hook is not decided")
                     continue
@@ -531,6 +540,25 @@ def r5(ctx: Ctx) -> None:
     regs = [n for n in regs if any(calls_target(e, "Simulator._add_event") for p in ctx.paths(n.qualname) for e in calls(p))]
     ctx.require(len(regs) == 1, "_generate_sessions: the deferred hook-registration callback was not found")
     cb = regs[0]
+    # every event a session lists is created (whether it acts is the event's own `enabled` decision)
+    nmade = 0
+    for top in normal_paths(ctx.paths(gs.qualname)):
+        stack = [top]
+        while stack:
+            path = stack.pop()
+            for e in path.events:
+                if e.kind != "loop":
+                    continue
+                made_here = [bp for bp in e.paths if any(c.kind == "call" and kw(c, "event_id") is not None for c in bp.events)]
+                if made_here:
+                    nmade += 1
+                    for bp in e.paths:
+                        if bp.exit[0] == "raise" or bp in made_here:
+                            continue
+                        ctx.violated(gs, e.node, "every event listed in a session is created and its hooks are registered", "no path of the loop over a session's events leaves without creating the event", "skipped on [" + bp.describe()[:160] + "]")
+                else:
+                    stack.extend(bp for bp in e.paths if bp.exit[0] != "raise")
+    ctx.require(nmade >= 1, "_generate_sessions: the loop that creates a session's events was not found")
     own = [a for a in cb.params if not (cb.cls is not None and a == "self")]
     if not own:
         ctx.violated(cb, cb.node, "the deferred callback receives its event as a parameter", "def callback(_event): ...", "callback without parameters (it can only see the event through its closure)")
